@@ -115,7 +115,7 @@ def run(tier, seed):
     if not ck.proof['driver_ok']:
         ck.notes['driver'] = 'unavailable: model-side runs skipped, searching with the implementation-side oracles only'
     import soupsieve as sv
-    n = 150 if tier == 'quick' else 3000
+    n = 220 if tier == 'quick' else 3000
     scs = []
     names = [':enabled', ':disabled', ':required', ':optional', ':read-write', ':read-only', ':in-range', ':out-of-range', ':link',
              ':any-link', ':checked', ':default', ':indeterminate', ':placeholder-shown', ':dir(ltr)', ':dir(rtl)', ':root']
